@@ -71,6 +71,9 @@ func NewSymbolTable(opts ...SymbolTableOption) *SymbolTableStruct {
 
 // Check if a given symbol exists.
 func (s *SymbolTableStruct) ExistsId(symbol Symbol) bool {
+	s.mutex.RLock()
+	defer s.mutex.RUnlock()
+
 	return symbol < Symbol(len(s.idTable)) && symbol > 0
 }
 
